@@ -103,6 +103,16 @@ func (g *G) genC07(p *Plan) {
 				op = Op{K: "list", B: b, Keys: allKeys}
 			case r < 89:
 				op = Op{K: "delmulti", B: b, Keys: allKeys[:g.n(1, len(allKeys))]}
+				if c.Versioned && g.chance(0.6) {
+					// a batch that names versions (a clean-up job): each entry
+					// removes exactly that version
+					op.Keys = append([]KeyRef{}, op.Keys...)
+					for i := range op.Keys {
+						if g.chance(0.7) {
+							op.Keys[i].Ver = g.n(1, 6)
+						}
+					}
+				}
 			default:
 				if nup > 0 {
 					if g.chance(0.7) {
